@@ -1,14 +1,20 @@
-(* C14 proofs: the anchor handler offers exactly the anchored file names that pass the gate,
-   each with its own link; DOM-level reading on simple pages; hash = link fragment. *)
+(* C14 proofs: the anchor handler offers exactly the text found inside anchor elements that passes the
+   gate, each with its own link (= the DOM-level reading, for every event stream); hash = link fragment. *)
 From Coq Require Import List String Ascii Bool Arith NArith Lia.
 From RC Require Import lib.Pep440 gen.ConstsC14 model.StrC14 model.FileNameC14 model.PyRequiresC14 model.IndexPageC14.
 From RC Require Import proofs.StrC14P proofs.FileNameC14P proofs.PyRequiresC14P.
 Import ListNotations.
 Open Scope string_scope.
 
-Definition not_start (e : event) : Prop := match e with EStart _ _ => False | _ => True end.
+(* events that neither open nor close an anchor element *)
+Definition quiet (e : event) : Prop :=
+  match e with
+  | EStart t _ => String.eqb t pg_anchor = false
+  | EEnd t => String.eqb t pg_anchor = false
+  | _ => True
+  end.
 
-Section PageP.
+Section Dom.
 Variable V : Type.
 Variable pvf : string -> option V.
 Variable pvr : string -> option version.
@@ -17,69 +23,39 @@ Variable sys : interp.
 Hypothesis missing_ok : pvf missing_version <> None.
 
 Notation step := (step V pvf pvr sys).
-Notation run := (run V pvf pvr sys).
-Notation offered := (offered V pvf pvr sys).
 Notation pstate := (pstate V).
+
+Definition anchor_ctx (attrs : list attr) : option link * bool :=
+  let '(lnk, rp) := scan_attrs attrs None None in
+  (lnk, match gate_skip pvr sys rp with Some sk => sk | None => false end).
+
+(* the DOM-level reading: text belongs to the anchor element it is inside of (at any depth), until that
+   element's end tag *)
+Fixpoint dom_offered (cur : option (option link * bool)) (evs : list event) : list (cand V * link) :=
+  match evs with
+  | [] => []
+  | EStart tag attrs :: r =>
+      if String.eqb tag pg_anchor then dom_offered (Some (anchor_ctx attrs)) r else dom_offered cur r
+  | EEnd tag :: r => if String.eqb tag pg_anchor then dom_offered None r else dom_offered cur r
+  | EOther :: r => dom_offered cur r
+  | EData d :: r =>
+      match cur with
+      | Some (Some l, false) =>
+          match file_to_cand V pvf d with FCand c => (c, l) :: dom_offered cur r | _ => dom_offered cur r end
+      | _ => dom_offered cur r
+      end
+  end.
 
 Lemma step_not_raised (st : pstate) e : p_raised st = false -> p_raised (step st e) = false.
 Proof.
   intros H. unfold IndexPageC14.step. rewrite H. destruct e as [tag attrs|d|tag|]; auto.
-  - destruct (String.eqb tag pg_anchor); [|reflexivity].
+  - destruct (String.eqb tag pg_anchor); [|exact H].
     destruct (scan_attrs attrs None None) as [lnk rp].
     pose proof (gate_total pvr sys rp) as G. destruct (gate_skip pvr sys rp); [reflexivity|congruence].
   - destruct (p_link st); auto. destruct (p_skip st); auto.
     pose proof (file_never_raises V pvf d missing_ok) as F.
     destruct (file_to_cand V pvf d); auto. congruence.
-Qed.
-
-(* the data event is read in the context (lk, sk) left by the last start tag *)
-Definition ctx_case (lk : option link) (sk : bool) (evs : list event) (c : cand V) (l : link) : Prop :=
-  exists mid d post, evs = (mid ++ EData d :: post)%list /\ Forall not_start mid /\
-    lk = Some l /\ sk = false /\ file_to_cand V pvf d = FCand c.
-
-(* c was read from text that follows an <a ...> start tag with no other start tag in between;
-   l is that tag's (last) href; its requires-python attribute does not exclude the interpreter *)
-Definition anchored (evs : list event) (c : cand V) (l : link) : Prop :=
-  exists pre attrs mid d post rp,
-    evs = (pre ++ EStart pg_anchor attrs :: mid ++ EData d :: post)%list /\ Forall not_start mid /\
-    scan_attrs attrs None None = (Some l, rp) /\ gate_skip pvr sys rp = Some false /\
-    file_to_cand V pvf d = FCand c.
-
-Lemma ctx_cons_inv lk sk e evs c l :
-  ctx_case lk sk (e :: evs) c l <->
-  (exists d, e = EData d /\ lk = Some l /\ sk = false /\ file_to_cand V pvf d = FCand c) \/
-  (not_start e /\ ctx_case lk sk evs c l).
-Proof.
-  split.
-  - intros (mid & d & post & E & Hm & H1 & H2 & H3). destruct mid as [|e' mid]; cbn [app] in E; inversion E; subst.
-    + left. eauto.
-    + right. inversion Hm; subst. split; auto. exists mid, d, post. auto.
-  - intros [(d & -> & H1 & H2 & H3)|[Hn (mid & d & post & -> & Hm & H1 & H2 & H3)]].
-    + exists [], d, evs. auto.
-    + exists (e :: mid), d, post. repeat split; auto.
-Qed.
-
-Lemma anchored_cons_inv e evs c l :
-  anchored (e :: evs) c l <->
-  (exists attrs rp, e = EStart pg_anchor attrs /\ scan_attrs attrs None None = (Some l, rp) /\
-     gate_skip pvr sys rp = Some false /\ ctx_case (Some l) false evs c l) \/
-  anchored evs c l.
-Proof.
-  split.
-  - intros (pre & attrs & mid & d & post & rp & E & Hm & H1 & H2 & H3).
-    destruct pre as [|e' pre]; cbn [app] in E; inversion E; subst.
-    + left. exists attrs, rp. repeat split; auto. exists mid, d, post. auto.
-    + right. exists pre, attrs, mid, d, post, rp. auto.
-  - intros [(attrs & rp & -> & H1 & H2 & (mid & d & post & -> & Hm & _ & _ & H3))|(pre & attrs & mid & d & post & rp & -> & H)].
-    + exists [], attrs, mid, d, post, rp. auto.
-    + exists (e :: pre), attrs, mid, d, post, rp. auto.
-Qed.
-
-Lemma ctx_case_ctx lk sk evs c l : ctx_case lk sk evs c l <-> (lk = Some l /\ sk = false /\ ctx_case (Some l) false evs c l).
-Proof.
-  split.
-  - intros (mid & d & post & E & Hm & H1 & H2 & H3). subst. repeat split; auto. exists mid, d, post. auto.
-  - intros (-> & -> & H). exact H.
+  - destruct (String.eqb tag pg_anchor); [reflexivity|exact H].
 Qed.
 
 Definition emit (st : pstate) (d : string) : list (cand V * link) :=
@@ -97,125 +73,168 @@ Proof.
   destruct (file_to_cand V pvf d); cbn [p_link p_skip p_dists app]; auto.
 Qed.
 
-Lemma emit_in st d c l :
-  In (c, l) (emit st d) <-> (p_link st = Some l /\ p_skip st = false /\ file_to_cand V pvf d = FCand c).
+Lemma step_start_a (st : pstate) attrs : p_raised st = false ->
+  step st (EStart pg_anchor attrs) = mkP V (fst (anchor_ctx attrs)) (snd (anchor_ctx attrs)) (p_dists st) false.
 Proof.
-  unfold emit. destruct (p_link st) as [lk|]; [|cbn; split; [tauto|intros (H & _); discriminate]].
-  destruct (p_skip st); [cbn; split; [tauto|intros (_ & H & _); discriminate]|].
-  destruct (file_to_cand V pvf d) as [|c0|]; cbn; try (split; [tauto|intros (_ & _ & H); discriminate]).
-  split.
-  - intros [H|[]]. inversion H; subst. auto.
-  - intros (H1 & _ & H3). inversion H1; inversion H3; subst. auto.
+  intros Hr. unfold IndexPageC14.step, anchor_ctx. rewrite Hr, String.eqb_refl.
+  destruct (scan_attrs attrs None None) as [lnk rp].
+  pose proof (gate_total pvr sys rp) as G. destruct (gate_skip pvr sys rp) as [sk|]; [reflexivity|congruence].
 Qed.
 
-Lemma fold_exact evs : forall (st : pstate) c l, p_raised st = false ->
-  (In (c, l) (p_dists (fold_left step evs st)) <->
-   In (c, l) (p_dists st) \/ ctx_case (p_link st) (p_skip st) evs c l \/ anchored evs c l).
+(* where the handler state stands in the DOM *)
+Definition cur_of (st : pstate) : option (option link * bool) :=
+  match p_link st with Some l => Some (Some l, p_skip st) | None => None end.
+
+Lemma dom_no_href sk evs : dom_offered (Some (None, sk)) evs = dom_offered None evs.
 Proof.
-  induction evs as [|e evs IH]; intros st c l Hr.
-  - cbn [fold_left]. split; [auto|]. intros [H|[(mid & d & post & E & _)|(pre & a & mid & d & post & rp & E & _)]]; auto.
-    + destruct mid; discriminate.
-    + destruct pre; discriminate.
-  - cbn [fold_left]. rewrite (IH (step st e) c l (step_not_raised st e Hr)).
-    rewrite (ctx_cons_inv (p_link st)), anchored_cons_inv.
-    destruct e as [tag attrs|d|tag|].
-    + (* start tag *)
-      assert ((exists d, EStart tag attrs = EData d /\ p_link st = Some l /\ p_skip st = false /\ file_to_cand V pvf d = FCand c) <-> False) as X1
-        by (split; [intros (d & E & _); discriminate|tauto]).
-      assert (not_start (EStart tag attrs) <-> False) as X2 by (cbn; tauto).
-      rewrite X1, X2. clear X1 X2.
-      unfold IndexPageC14.step. rewrite Hr.
-      destruct (String.eqb tag pg_anchor) eqn:Et.
-      * apply String.eqb_eq in Et. subst tag.
-        destruct (scan_attrs attrs None None) as [lnk rp] eqn:Es.
-        pose proof (gate_total pvr sys rp) as G. destruct (gate_skip pvr sys rp) as [sk|] eqn:Eg; [|congruence].
-        cbn [p_dists p_link p_skip].
-        assert (ctx_case lnk sk evs c l <->
-                (exists attrs0 rp0, EStart pg_anchor attrs = EStart pg_anchor attrs0 /\ scan_attrs attrs0 None None = (Some l, rp0) /\
-                   gate_skip pvr sys rp0 = Some false /\ ctx_case (Some l) false evs c l)) as X.
-        { rewrite ctx_case_ctx. split.
-          - intros (-> & -> & H). exists attrs, rp. auto.
-          - intros (a0 & r0 & E & H1 & H2 & H3). inversion E; subst a0. rewrite Es in H1. inversion H1; subst.
-            rewrite Eg in H2. inversion H2; subst. auto. }
-        rewrite X. tauto.
-      * cbn [p_dists p_link p_skip].
-        assert (ctx_case None (p_skip st) evs c l <-> False) as X1.
-        { rewrite ctx_case_ctx. split; [intros (H & _); discriminate|tauto]. }
-        assert ((exists attrs0 rp0, EStart tag attrs = EStart pg_anchor attrs0 /\ scan_attrs attrs0 None None = (Some l, rp0) /\
-                   gate_skip pvr sys rp0 = Some false /\ ctx_case (Some l) false evs c l) <-> False) as X2.
-        { split; [|tauto]. intros (a0 & r0 & E & _). inversion E; subst. rewrite String.eqb_refl in Et. discriminate. }
-        rewrite X1, X2. tauto.
-    + (* data *)
-      destruct (step_data st d Hr) as (E1 & E2 & E3). rewrite E1, E2, E3, in_app_iff, emit_in.
-      assert ((exists d0, EData d = EData d0 /\ p_link st = Some l /\ p_skip st = false /\ file_to_cand V pvf d0 = FCand c) <->
-              (p_link st = Some l /\ p_skip st = false /\ file_to_cand V pvf d = FCand c)) as X1.
-      { split; [intros (d0 & E & H); inversion E; subst; exact H|intros H; exists d; auto]. }
-      assert ((exists attrs0 rp0, EData d = EStart pg_anchor attrs0 /\ scan_attrs attrs0 None None = (Some l, rp0) /\
-                 gate_skip pvr sys rp0 = Some false /\ ctx_case (Some l) false evs c l) <-> False) as X2
-        by (split; [intros (a0 & r0 & E & _); discriminate|tauto]).
-      assert (not_start (EData d) <-> True) as X3 by (cbn; tauto).
-      rewrite X1, X2, X3. tauto.
-    + (* end tag *)
-      assert ((exists d0, EEnd tag = EData d0 /\ p_link st = Some l /\ p_skip st = false /\ file_to_cand V pvf d0 = FCand c) <-> False) as X1
-        by (split; [intros (d0 & E & _); discriminate|tauto]).
-      assert ((exists attrs0 rp0, EEnd tag = EStart pg_anchor attrs0 /\ scan_attrs attrs0 None None = (Some l, rp0) /\
-                 gate_skip pvr sys rp0 = Some false /\ ctx_case (Some l) false evs c l) <-> False) as X2
-        by (split; [intros (a0 & r0 & E & _); discriminate|tauto]).
-      assert (not_start (EEnd tag) <-> True) as X3 by (cbn; tauto).
-      rewrite X1, X2, X3. unfold IndexPageC14.step. rewrite Hr. tauto.
-    + assert ((exists d0, EOther = EData d0 /\ p_link st = Some l /\ p_skip st = false /\ file_to_cand V pvf d0 = FCand c) <-> False) as X1
-        by (split; [intros (d0 & E & _); discriminate|tauto]).
-      assert ((exists attrs0 rp0, EOther = EStart pg_anchor attrs0 /\ scan_attrs attrs0 None None = (Some l, rp0) /\
-                 gate_skip pvr sys rp0 = Some false /\ ctx_case (Some l) false evs c l) <-> False) as X2
-        by (split; [intros (a0 & r0 & E & _); discriminate|tauto]).
-      assert (not_start EOther <-> True) as X3 by (cbn; tauto).
-      rewrite X1, X2, X3. unfold IndexPageC14.step. rewrite Hr. tauto.
+  induction evs as [|e evs IH]; [reflexivity|]. destruct e as [tag a|d|tag|]; cbn [dom_offered]; auto.
+  - destruct (String.eqb tag pg_anchor); auto.
+  - destruct (String.eqb tag pg_anchor); auto.
 Qed.
 
-Theorem page_exact evs c l : In (c, l) (offered evs) <-> anchored evs c l.
+Lemma fold_dom evs : forall st : pstate, p_raised st = false ->
+  p_dists (fold_left step evs st) = (rev (dom_offered (cur_of st) evs) ++ p_dists st)%list.
 Proof.
-  unfold IndexPageC14.offered, IndexPageC14.run. rewrite <- in_rev. rewrite fold_exact; [|reflexivity].
-  cbn [pinit p_dists p_link p_skip]. split; [|auto].
-  intros [[]|[(mid & d & post & _ & _ & H & _)|H]]; [discriminate|exact H].
+  induction evs as [|e evs IH]; intros st Hr; [reflexivity|].
+  cbn [fold_left]. rewrite (IH _ (step_not_raised st e Hr)).
+  destruct e as [tag attrs|d|tag|]; cbn [dom_offered].
+  - destruct (String.eqb tag pg_anchor) eqn:Et.
+    + apply String.eqb_eq in Et. subst tag. rewrite (step_start_a st attrs Hr).
+      unfold cur_of. cbn [p_link p_skip p_dists].
+      destruct (anchor_ctx attrs) as [[l|] sk]; cbn [fst snd]; [reflexivity|]. rewrite dom_no_href. reflexivity.
+    + unfold IndexPageC14.step. rewrite Hr, Et. reflexivity.
+  - destruct (step_data st d Hr) as (E1 & E2 & E3). unfold cur_of at 1. rewrite E1, E2, E3. fold (cur_of st).
+    unfold emit, cur_of. destruct (p_link st) as [l|]; [|reflexivity]. destruct (p_skip st); [reflexivity|].
+    destruct (file_to_cand V pvf d); try reflexivity.
+    cbn [rev app]. rewrite <- app_assoc. reflexivity.
+  - unfold IndexPageC14.step. rewrite Hr. destruct (String.eqb tag pg_anchor); reflexivity.
+  - unfold IndexPageC14.step. rewrite Hr. reflexivity.
 Qed.
 
-Theorem page_never_raises evs : p_raised (run evs) = false.
+(* FULL STRENGTH: for every event stream the offered list is the DOM-level reading *)
+Theorem page_dom evs : offered V pvf pvr sys evs = dom_offered None evs.
 Proof.
-  unfold IndexPageC14.run. assert (p_raised (pinit V) = false) as H by reflexivity. revert H. generalize (pinit V).
+  unfold offered, run. rewrite fold_dom; [|reflexivity]. cbn [pinit p_dists cur_of p_link].
+  rewrite app_nil_r. apply rev_involutive.
+Qed.
+
+Theorem page_never_raises evs : p_raised (run V pvf pvr sys evs) = false.
+Proof.
+  unfold run. assert (p_raised (pinit V) = false) as H by reflexivity. revert H. generalize (pinit V).
   induction evs as [|e evs IH]; intros st H; cbn [fold_left]; auto. apply IH, step_not_raised, H.
 Qed.
 
-End PageP.
+(* ---- "exactly the anchors ..., each with its own link" ---- *)
+Definition ctxd (cur : option (option link * bool)) (evs : list event) (c : cand V) (l : link) : Prop :=
+  exists mid d post, evs = (mid ++ EData d :: post)%list /\ Forall quiet mid /\
+    cur = Some (Some l, false) /\ file_to_cand V pvf d = FCand c.
 
-(* ---- the DOM-level reading of a page ---- *)
-Section Dom.
-Variable V : Type.
-Variable pvf : string -> option V.
-Variable pvr : string -> option version.
-Variable sys : interp.
-Hypothesis missing_ok : pvf missing_version <> None.
+(* c was read from text inside an <a ...> element (no anchor start or end tag in between); l is that
+   element's (last) href; its requires-python attribute does not exclude the interpreter *)
+Definition anchored (evs : list event) (c : cand V) (l : link) : Prop :=
+  exists pre attrs mid d post,
+    evs = (pre ++ EStart pg_anchor attrs :: mid ++ EData d :: post)%list /\ Forall quiet mid /\
+    anchor_ctx attrs = (Some l, false) /\ file_to_cand V pvf d = FCand c.
 
-Definition anchor_ctx (attrs : list attr) : option link * bool :=
-  let '(lnk, rp) := scan_attrs attrs None None in
-  (lnk, match gate_skip pvr sys rp with Some sk => sk | None => false end).
+Lemma ctxd_cons_inv cur e evs c l :
+  ctxd cur (e :: evs) c l <->
+  (exists d, e = EData d /\ cur = Some (Some l, false) /\ file_to_cand V pvf d = FCand c) \/
+  (quiet e /\ ctxd cur evs c l).
+Proof.
+  split.
+  - intros (mid & d & post & E & Hm & H1 & H3). destruct mid as [|e' mid]; cbn [app] in E; inversion E; subst.
+    + left. eauto.
+    + right. inversion Hm; subst. split; auto. exists mid, d, post. auto.
+  - intros [(d & -> & H1 & H3)|[Hn (mid & d & post & -> & Hm & H1 & H3)]].
+    + exists [], d, evs. auto.
+    + exists (e :: mid), d, post. repeat split; auto.
+Qed.
 
-(* text belongs to the anchor element it is inside of (at any depth), until that element's end tag *)
-Fixpoint dom_offered (cur : option (option link * bool)) (evs : list event) : list (cand V * link) :=
-  match evs with
-  | [] => []
-  | EStart tag attrs :: r =>
-      if String.eqb tag pg_anchor then dom_offered (Some (anchor_ctx attrs)) r else dom_offered cur r
-  | EEnd tag :: r => if String.eqb tag pg_anchor then dom_offered None r else dom_offered cur r
-  | EOther :: r => dom_offered cur r
-  | EData d :: r =>
-      match cur with
-      | Some (Some l, false) =>
-          match file_to_cand V pvf d with FCand c => (c, l) :: dom_offered cur r | _ => dom_offered cur r end
-      | _ => dom_offered cur r
-      end
-  end.
+Lemma anchored_cons_inv e evs c l :
+  anchored (e :: evs) c l <->
+  (exists attrs, e = EStart pg_anchor attrs /\ anchor_ctx attrs = (Some l, false) /\ ctxd (Some (Some l, false)) evs c l) \/
+  anchored evs c l.
+Proof.
+  split.
+  - intros (pre & attrs & mid & d & post & E & Hm & H1 & H3).
+    destruct pre as [|e' pre]; cbn [app] in E; inversion E; subst.
+    + left. exists attrs. repeat split; auto. exists mid, d, post. auto.
+    + right. exists pre, attrs, mid, d, post. auto.
+  - intros [(attrs & -> & H1 & (mid & d & post & -> & Hm & _ & H3))|(pre & attrs & mid & d & post & -> & H)].
+    + exists [], attrs, mid, d, post. auto.
+    + exists (e :: pre), attrs, mid, d, post. auto.
+Qed.
 
-(* simple pages: anchors hold exactly one text node; whatever else is on the page is not a file name *)
+Lemma ctxd_cur cur evs c l : ctxd cur evs c l <-> (cur = Some (Some l, false) /\ ctxd (Some (Some l, false)) evs c l).
+Proof.
+  split.
+  - intros (mid & d & post & E & Hm & H1 & H3). subst. split; auto. exists mid, d, post. auto.
+  - intros (-> & H). exact H.
+Qed.
+
+Lemma dom_in evs : forall cur c l,
+  In (c, l) (dom_offered cur evs) <-> ctxd cur evs c l \/ anchored evs c l.
+Proof.
+  induction evs as [|e evs IH]; intros cur c l.
+  - cbn. split; [tauto|]. intros [(mid & d & post & E & _)|(pre & a & mid & d & post & E & _)].
+    + destruct mid; discriminate.
+    + destruct pre; discriminate.
+  - rewrite ctxd_cons_inv, anchored_cons_inv. destruct e as [tag attrs|d|tag|]; cbn [dom_offered].
+    + assert ((exists d, EStart tag attrs = EData d /\ cur = Some (Some l, false) /\ file_to_cand V pvf d = FCand c) <-> False) as X1
+        by (split; [intros (d & E & _); discriminate|tauto]).
+      rewrite X1. clear X1. cbn [quiet].
+      destruct (String.eqb tag pg_anchor) eqn:Et.
+      * apply String.eqb_eq in Et. subst tag. rewrite IH.
+        assert (ctxd (Some (anchor_ctx attrs)) evs c l <->
+                (exists attrs0, EStart pg_anchor attrs = EStart pg_anchor attrs0 /\ anchor_ctx attrs0 = (Some l, false) /\
+                   ctxd (Some (Some l, false)) evs c l)) as X.
+        { rewrite ctxd_cur. split.
+          - intros (E & H). assert (anchor_ctx attrs = (Some l, false)) as E' by congruence. exists attrs. auto.
+          - intros (a0 & E & H1 & H3). inversion E; subst a0. rewrite H1. auto. }
+        rewrite X. split; [|intros [[[]|[Hf _]]|H]; [discriminate|tauto]]. tauto.
+      * rewrite IH.
+        assert ((exists attrs0, EStart tag attrs = EStart pg_anchor attrs0 /\ anchor_ctx attrs0 = (Some l, false) /\
+                   ctxd (Some (Some l, false)) evs c l) <-> False) as X2.
+        { split; [|tauto]. intros (a0 & E & _). inversion E; subst. rewrite String.eqb_refl in Et. discriminate. }
+        rewrite X2. tauto.
+    + assert ((exists d0, EData d = EData d0 /\ cur = Some (Some l, false) /\ file_to_cand V pvf d0 = FCand c) <->
+              (cur = Some (Some l, false) /\ file_to_cand V pvf d = FCand c)) as X1.
+      { split; [intros (d0 & E & H); inversion E; subst; exact H|intros H; exists d; auto]. }
+      assert ((exists attrs0, EData d = EStart pg_anchor attrs0 /\ anchor_ctx attrs0 = (Some l, false) /\
+                 ctxd (Some (Some l, false)) evs c l) <-> False) as X2
+        by (split; [intros (a0 & E & _); discriminate|tauto]).
+      rewrite X1, X2. cbn [quiet]. clear X1 X2.
+      destruct cur as [[[l0|] [|]]|]; try (rewrite IH; split; [tauto|intros [[[E _]|H]|H]; [discriminate|tauto|tauto]]).
+      destruct (file_to_cand V pvf d) as [|c0|] eqn:Ef.
+      * rewrite IH. split; [tauto|]. intros [[[_ E]|H]|H]; [discriminate|tauto|tauto].
+      * cbn [In]. rewrite IH. split.
+        -- intros [H|H]; [inversion H; subst; left; left; auto|tauto].
+        -- intros [[[E1 E2]|H]|H]; [inversion E1; inversion E2; subst; left; reflexivity|tauto|tauto].
+      * rewrite IH. split; [tauto|]. intros [[[_ E]|H]|H]; [discriminate|tauto|tauto].
+    + assert ((exists d0, EEnd tag = EData d0 /\ cur = Some (Some l, false) /\ file_to_cand V pvf d0 = FCand c) <-> False) as X1
+        by (split; [intros (d0 & E & _); discriminate|tauto]).
+      assert ((exists attrs0, EEnd tag = EStart pg_anchor attrs0 /\ anchor_ctx attrs0 = (Some l, false) /\
+                 ctxd (Some (Some l, false)) evs c l) <-> False) as X2
+        by (split; [intros (a0 & E & _); discriminate|tauto]).
+      rewrite X1, X2. cbn [quiet]. destruct (String.eqb tag pg_anchor) eqn:Et; rewrite IH.
+      * assert (ctxd None evs c l <-> False) as X3 by (rewrite ctxd_cur; split; [intros (E & _); discriminate|tauto]).
+        rewrite X3. split; [tauto|]. intros [[[]|[E _]]|[[]|H]]; [discriminate|tauto].
+      * tauto.
+    + assert ((exists d0, EOther = EData d0 /\ cur = Some (Some l, false) /\ file_to_cand V pvf d0 = FCand c) <-> False) as X1
+        by (split; [intros (d0 & E & _); discriminate|tauto]).
+      assert ((exists attrs0, EOther = EStart pg_anchor attrs0 /\ anchor_ctx attrs0 = (Some l, false) /\
+                 ctxd (Some (Some l, false)) evs c l) <-> False) as X2
+        by (split; [intros (a0 & E & _); discriminate|tauto]).
+      rewrite X1, X2, IH. cbn [quiet]. tauto.
+Qed.
+
+Theorem page_exact evs c l : In (c, l) (offered V pvf pvr sys evs) <-> anchored evs c l.
+Proof.
+  rewrite page_dom, dom_in. split; [|auto].
+  intros [(mid & d & post & _ & _ & H & _)|H]; [discriminate|exact H].
+Qed.
+
+(* ---- simple pages (kept for C07's order-independence theorems): anchors hold one text node ---- *)
 Inductive item :=
 | Anchor (attrs : list attr) (text : string)
 | Noise (e : event).
@@ -241,47 +260,6 @@ Definition reading_of (i : item) : list (cand V * link) :=
   | Noise _ => []
   end.
 
-Notation step := (step V pvf pvr sys).
-
-Lemma step_start_a (st : pstate V) attrs : p_raised st = false ->
-  step st (EStart pg_anchor attrs) = mkP V (fst (anchor_ctx attrs)) (snd (anchor_ctx attrs)) (p_dists st) false.
-Proof.
-  intros Hr. unfold IndexPageC14.step, anchor_ctx. rewrite Hr, String.eqb_refl.
-  destruct (scan_attrs attrs None None) as [lnk rp].
-  pose proof (gate_total pvr sys rp) as G. destruct (gate_skip pvr sys rp) as [sk|]; [reflexivity|congruence].
-Qed.
-Lemma step_end (st : pstate V) tag : step st (EEnd tag) = st.
-Proof. unfold IndexPageC14.step. destruct (p_raised st); reflexivity. Qed.
-
-Lemma item_fold i (st : pstate V) : item_ok i -> p_raised st = false ->
-  p_raised (fold_left step (events_of i) st) = false /\
-  p_dists (fold_left step (events_of i) st) = (rev (reading_of i) ++ p_dists st)%list.
-Proof.
-  intros Hok Hr. destruct i as [attrs text|e].
-  - cbn [events_of fold_left reading_of]. rewrite step_end, (step_start_a st attrs Hr).
-    set (st1 := mkP V _ _ _ _).
-    assert (p_raised st1 = false) as Hr1 by reflexivity.
-    destruct (step_data V pvf pvr sys st1 text Hr1) as (_ & _ & E3).
-    split; [apply (step_not_raised V pvf pvr sys missing_ok); exact Hr1|]. rewrite E3.
-    unfold emit, st1. cbn [p_link p_skip p_dists]. f_equal.
-    destruct (anchor_ctx attrs) as [[l|] [|]]; cbn [fst snd]; try reflexivity.
-    destruct (file_to_cand V pvf text); reflexivity.
-  - cbn [events_of fold_left reading_of rev app]. split; [apply (step_not_raised V pvf pvr sys missing_ok); auto|].
-    unfold IndexPageC14.step. rewrite Hr. destruct e as [tag a|d|tag|]; cbn [item_ok noise_ok] in Hok; auto.
-    + rewrite Hok. reflexivity.
-    + destruct (p_link st); auto. destruct (p_skip st); auto. rewrite Hok. reflexivity.
-Qed.
-
-Lemma items_fold items : forall (st : pstate V), Forall item_ok items -> p_raised st = false ->
-  p_raised (fold_left step (flat_map events_of items) st) = false /\
-  p_dists (fold_left step (flat_map events_of items) st) = (rev (flat_map reading_of items) ++ p_dists st)%list.
-Proof.
-  induction items as [|i items IH]; intros st Hok Hr; [cbn; auto|].
-  inversion Hok; subst. cbn [flat_map]. rewrite fold_left_app.
-  destruct (item_fold i st H1 Hr) as [R D]. destruct (IH _ H2 R) as [R' D'].
-  split; [exact R'|]. rewrite D', D, rev_app_distr, app_assoc. reflexivity.
-Qed.
-
 Lemma dom_items items : forall cur, Forall item_ok items ->
   (match cur with Some (Some _, false) => False | _ => True end) ->
   dom_offered cur (flat_map events_of items) = flat_map reading_of items.
@@ -304,49 +282,10 @@ Theorem page_dom_partial items :
   offered V pvf pvr sys (flat_map events_of items) = flat_map reading_of items /\
   dom_offered None (flat_map events_of items) = flat_map reading_of items.
 Proof.
-  intros Hok. split; [|apply dom_items; auto].
-  unfold offered, run. destruct (items_fold items (pinit V) Hok eq_refl) as [_ D]. rewrite D.
-  cbn [pinit p_dists]. rewrite app_nil_r. apply rev_involutive.
+  intros Hok. rewrite page_dom. split; apply dom_items; auto.
 Qed.
 
 End Dom.
-
-(* The unguarded DOM-level statement is false of the code. *)
-Definition page_dom_full_statement : Prop :=
-  forall (pvf : string -> option string) pvr sys evs,
-    pvf missing_version <> None ->
-    offered string pvf pvr sys evs = dom_offered string pvf pvr sys None evs.
-
-Definition pvS (s : string) : option string := Some s.
-Definition pvN (s : string) : option version := None.
-Definition sys38 := mkI 3 8 0.
-
-(* text after </a> is offered with the preceding anchor's link *)
-Definition trailing_page : list event :=
-  [EStart "a" [("href", Some "x-1.0-py3-none-any.whl#sha256=ab")]; EData "x-1.0-py3-none-any.whl"; EEnd "a";
-   EData " y-1.0.tar.gz"; EStart "br" []].
-Theorem page_dom_refuted_trailing_text :
-  List.length (offered string pvS pvN sys38 trailing_page) = 2 /\
-  List.length (dom_offered string pvS pvN sys38 None trailing_page) = 1 /\
-  map (fun cl => (c_file (fst cl), snd cl)) (offered string pvS pvN sys38 trailing_page) =
-    [("x-1.0-py3-none-any.whl", Some "x-1.0-py3-none-any.whl#sha256=ab"); (" y-1.0.tar.gz", Some "x-1.0-py3-none-any.whl#sha256=ab")].
-Proof. repeat split; vm_compute; reflexivity. Qed.
-
-(* a file name wrapped in a child element of its anchor is not offered *)
-Definition nested_page : list event :=
-  [EStart "a" [("href", Some "x-1.0.tar.gz")]; EStart "b" []; EData "x-1.0.tar.gz"; EEnd "b"; EEnd "a"].
-Theorem page_dom_refuted_nested_text :
-  offered string pvS pvN sys38 nested_page = [] /\
-  map (fun cl => (c_file (fst cl), snd cl)) (dom_offered string pvS pvN sys38 None nested_page) = [("x-1.0.tar.gz", Some "x-1.0.tar.gz")].
-Proof. split; vm_compute; reflexivity. Qed.
-
-Theorem page_dom_full_statement_false : ~ page_dom_full_statement.
-Proof.
-  intros H. specialize (H pvS pvN sys38 nested_page). 
-  assert (pvS missing_version <> None) as M by discriminate. specialize (H M).
-  assert (List.length (offered string pvS pvN sys38 nested_page) = List.length (dom_offered string pvS pvN sys38 None nested_page)) as L by (rewrite H; reflexivity).
-  vm_compute in L. discriminate.
-Qed.
 
 (* ---- hash from the link fragment ---- *)
 Lemma after_first_app sep a b : has_char (is_ch sep) a = false -> after_first sep (a ++ String sep b) = b.
